@@ -1,4 +1,5 @@
 import Pm.InterpSends
+import Pm.ToBufProps
 /-! # C08 — the script interpreter does what the script says
 
 "For every action the bytes powerman sends to the device are precisely the script's send strings in program order with
@@ -32,14 +33,21 @@ theorem C08_send_argument (fmt : Bytes) :
     sendText fmt none = some (hsprintf fmt none) ∧ sendText fmt (some []) = some (hsprintf fmt none) :=
   ⟨fun _ => rfl, fun _ _ _ => rfl, rfl, rfl⟩
 
-/-- **`_process_send`.**  On the first entry (`processing` clear) exactly the formatted text is appended to the
-    device's output buffer, one `Out.sent` record with the same bytes is emitted, and nothing else about the device
+/-- **`_process_send`.**  On the first entry (`processing` clear) exactly the formatted text is queued behind what the
+    device's output buffer holds, one `Out.sent` record with the same bytes is emitted, and nothing else about the device
     changes; on re-entry nothing is appended and nothing emitted; and the statement reports finished only when the
     output buffer is empty, i.e. every byte has been handed to the descriptor (or the model has stopped at the
-    `hostlist_sort` assertion). -/
+    `hostlist_sort` assertion).
+    Changed when the capacity of `dev->to` was modelled: the first clause read `toBuf := d.toBuf ++ s`; the buffer holds 65536
+    bytes and `cbuf_write` overwrites the oldest unsent bytes beyond that (`clipTo` = the last 65536 bytes of `d.toBuf ++ s`):
+    so beyond 64 KiB "the bytes powerman sends are precisely the script's send strings" is *false of the C code* — bytes queued
+    earlier and not yet written (telnet answers, the unsent rest of an earlier text when `dev->to` was not drained) are lost,
+    and of a text longer than 65536 bytes only the tail is sent (`C08_send_bytes_overflow_counterexample`).  Below the limit
+    the old clause holds: `C08_send_bytes_below`.  A script of the daemon itself never has two texts queued (a `send` waits
+    until the buffer has drained), so in practice what is overwritten are telnet answers. -/
 theorem C08_send_bytes (d : Dev) (a : Action) (o : Oracle) (e : ExecCtx) (fmt : Bytes) :
     (∀ s, e.processing = false → sendText fmt e.plugs = some s →
-        (stmtSend d a o e fmt).dev = { d with toBuf := d.toBuf ++ s } ∧
+        (stmtSend d a o e fmt).dev = { d with toBuf := clipTo (d.toBuf ++ s) } ∧
         sents (stmtSend d a o e fmt).out = [s] ∧
         (stmtSend d a o e fmt).finished = (d.toBuf ++ s).isEmpty) ∧
     (e.processing = false → sendText fmt e.plugs = none →
@@ -53,12 +61,48 @@ theorem C08_send_bytes (d : Dev) (a : Action) (o : Oracle) (e : ExecCtx) (fmt : 
   · intro s hp hs
     obtain ⟨h1, _, h3, h4, _⟩ := stmtSend_fresh d a o e fmt s hp hs
     refine ⟨h1, ?_, h4⟩
-    rw [h3]; split <;> simp [sents, sents_teleMem]
+    rw [h3]; unfold sendTele; split
+    · simp [sents]
+    · split <;> simp [sents, sents_teleMem]
   · intro hp hs
     rw [stmtSend_fresh_abort d a o e fmt hp hs]; exact ⟨rfl, rfl⟩
   · intro hp
     obtain ⟨h1, _, h3, h4, _⟩ := stmtSend_reentry d a o e fmt hp
     exact ⟨h1, h3, h4⟩
+
+/-- the first clause of `C08_send_bytes` as it read before, under the explicit no-overflow hypothesis: the text fits behind what
+    is queued -/
+theorem C08_send_bytes_below (d : Dev) (a : Action) (o : Oracle) (e : ExecCtx) (fmt : Bytes) (s : Bytes)
+    (hp : e.processing = false) (hs : sendText fmt e.plugs = some s) (hfit : (d.toBuf ++ s).length ≤ 65536) :
+    (stmtSend d a o e fmt).dev = { d with toBuf := d.toBuf ++ s } ∧
+    sents (stmtSend d a o e fmt).out = [s] ∧
+    (stmtSend d a o e fmt).finished = (d.toBuf ++ s).isEmpty := by
+  obtain ⟨h1, h2, h3⟩ := (C08_send_bytes d a o e fmt).1 s hp hs
+  rw [clipTo_of_le _ hfit] at h1
+  exact ⟨h1, h2, h3⟩
+
+/-- **The first clause of `C08_send_bytes` as it read before is false beyond 64 KiB**: a first-visit `send "l\n"` against a full
+    buffer (65536 queued bytes) does not leave `toBuf ++ "l\n"` queued: the two oldest queued bytes are gone.  (The C code does
+    the same: `cbuf_write` in overwrite mode; `_process_send` logs "buffer overrun, 2 dropped".) -/
+theorem C08_send_bytes_overflow_counterexample (a : Action) (o : Oracle) :
+    Pm.Dev2.ToBufP.sendCtx.processing = false ∧
+    sendText [108, 10] Pm.Dev2.ToBufP.sendCtx.plugs = some [108, 10] ∧
+    (stmtSend Pm.Dev2.ToBufP.fullDev a o Pm.Dev2.ToBufP.sendCtx [108, 10]).dev ≠
+      { Pm.Dev2.ToBufP.fullDev with toBuf := Pm.Dev2.ToBufP.fullDev.toBuf ++ [108, 10] } ∧
+    (stmtSend Pm.Dev2.ToBufP.fullDev a o Pm.Dev2.ToBufP.sendCtx [108, 10]).dev.toBuf =
+      Pm.Dev2.ToBufP.fullDev.toBuf.drop 2 ++ [108, 10] :=
+  Pm.Dev2.ToBufP.send_append_counterexample a o
+
+/-- non-vacuity of `C08_send_bytes_below`: an empty buffer and a six-byte text fit -/
+example : (([] : Bytes) ++ str "on p1\n").length ≤ 65536 := by decide +kernel
+
+/-- what the send does to the telemetry client: the line `send(dev): '…'` is produced exactly when the write did not overrun
+    the buffer (`_process_send`: `else if (dropped > 0) err(…) else { … vpf_fun(…) }`) -/
+theorem C08_send_telemetry (d : Dev) (a : Action) (o : Oracle) (e : ExecCtx) (fmt : Bytes) (s : Bytes)
+    (hp : e.processing = false) (hs : sendText fmt e.plugs = some s) :
+    (stmtSend d a o e fmt).out = [Out.sent s] ++
+      (if toOverrun d.toBuf s then [] else if a.telemetry then teleMem a.clientId "send(dev): '" s else []) :=
+  (stmtSend_fresh d a o e fmt s hp hs).2.2.1
 
 /-- non-vacuity: plug `p1`, script line `send "on %s\n"`, empty output buffer: `on p1\n` is queued and the statement
     waits for the buffer to drain -/
